@@ -40,6 +40,7 @@ PROPS = {
             f"{MAT}.calculate_target_power",
             f"{MAT}.get_target_power",
             f"{MAT}.drop_old_proposals",
+            f"{MAT}.__init__",
         ],
         lemmas=["proposal_eq_is_key_equality", "proposal_hash_respects_eq", "proposal_lt_strict_total_order_on_keys"],
         bounded=[dict(kind="native_script", name="history-freedom on the real Matryoshka: every arrival order and replacement history "
